@@ -205,6 +205,52 @@ theorem csc_cols_sorted_counterexample : ¬ Statement_csc_nd_sparse_cols_sorted 
   revert this
   decide
 
+/-- the region in which `_dot_csc_ndarray_sparse` leaves allocated slots unwritten: some position
+touched while computing an output column ends with sum 0 -/
+def ExcludedCscCancel (bRows bCols : Nat) (A : CSR) (b : Dense) : Bool :=
+  (List.range bCols).any fun i =>
+    (chainOf ((cscTouches bRows A b i).map (·.1))).any fun k => CSR.contrib (cscTouches bRows A b i) k == 0
+
+example : ExcludedCscCancel 3 2 exE exF = true
+    ∧ ExcludedCscCancel 2 2 { indptr := [0, 2, 3], indices := [0, 1, 2], data := [1, 2, 3] } [[1, 1], [0, 1]] = false := by decide
+
+/-! ### stated, not proved (validated differentially on every run: model output vs product) -/
+
+/-- dense value of a COO operand given as its element list -/
+def cooGet (es : List Ent) (i j : Nat) : Int := ((es.filter fun e => e.1 == i && e.2.1 == j).map (·.2.2)).sum
+
+/-- outside `ExcludedCscCancel`, `_dot_csc_ndarray_sparse` writes what it allocated and column `i` of its
+output looked up at row `k` is the product (`A` holds the columns of `a`: `a[k,j] = A.get j k`) -/
+def Statement_csc_nd_sparse_kernel_spec_partial : Prop :=
+  ∀ (aRows bRows bCols : Nat) (A : CSR) (b : Dense), A.WF → A.ColsIn aRows → ExcludedCscCancel bRows bCols A b = false →
+    (dotCscNdSparse aRows bRows bCols A b).alloc = (dotCscNdSparse aRows bRows bCols A b).data.length ∧
+    ∀ i k, i < bCols → k < aRows →
+      lookupK (slice ((dotCscNdSparse aRows bRows bCols A b).indices.zip (dotCscNdSparse aRows bRows bCols A b).data)
+          ((dotCscNdSparse aRows bRows bCols A b).indptr.getD i 0) ((dotCscNdSparse aRows bRows bCols A b).indptr.getD (i + 1) 0)) k
+        = matmulSpec bRows (fun r j => A.get j r) (dget b) k i
+
+/-- `_dot_csc_ndarray` (dense output) computes the product -/
+def Statement_csc_nd_kernel_spec : Prop :=
+  ∀ (aRows bRows bCols : Nat) (A : CSR) (b : Dense), A.ColsIn aRows → ∀ r c, r < aRows → c < bCols →
+    dget (dotCscNd aRows bRows bCols A b) r c = matmulSpec bRows (fun r j => A.get j r) (dget b) r c
+
+/-- whenever `_dot_coo_ndarray` / `_dot_coo_ndarray_sparse` return, they return `s1 @ x2ᵀ` (rows of `s1` sorted, coordinates in range) -/
+def Statement_coo_nd_kernel_spec : Prop :=
+  ∀ (nRows n nCols : Nat) (es : List Ent) (x2 : Dense) (fuel : Nat),
+    (es.map (·.1)).Pairwise (· ≤ ·) → (∀ e ∈ es, e.1 < nRows ∧ e.2.1 < n) →
+    (∀ out, dotCooNd nRows nCols es x2 fuel = some out → ∀ i k, i < nRows → k < nCols →
+      dget out i k = matmulSpec n (cooGet es) (fun j c => dget x2 c j) i k) ∧
+    (∀ ts, dotCooNdSparse nCols es x2 fuel = some ts → ∀ i k, i < nRows → k < nCols →
+      lookupK (rowOfTriples ts i) k = matmulSpec n (cooGet es) (fun j c => dget x2 c j) i k)
+
+/-- `_dot_ndarray_coo` computes `x1 @ s2`; `_dot_ndarray_coo_sparse` (handed the elements of `s2ᵀ`, sorted) as well -/
+def Statement_nd_coo_kernel_spec : Prop :=
+  ∀ (nRows n nCols : Nat) (x1 : Dense) (es : List Ent), (∀ e ∈ es, e.1 < n ∧ e.2.1 < nCols) →
+    (∀ i k, i < nRows → k < nCols → dget (dotNdCoo nRows nCols x1 es) i k = matmulSpec n (dget x1) (cooGet es) i k) ∧
+    ((es.map (·.2.1)).Pairwise (· ≤ ·) → ∀ i k, i < nRows → k < nCols →
+      lookupK (rowOfTriples (dotNdCooSparse nRows x1 (es.map fun e => (e.2.1, e.1, e.2.2))) i) k
+        = matmulSpec n (dget x1) (cooGet es) i k)
+
 /-! ### termination ("… and they always return") -/
 
 /-- the region in which `_dot_coo_ndarray` / `_dot_coo_ndarray_sparse` do not return: the dense
